@@ -46,6 +46,9 @@ def program_family(run: Run):
             r = repr(p)
             if "'w0'" in r or "'w1'" in r or "'arm'" in r:
                 yield p
+    # loop-first programs: a while loop as the very first action whose body combines conditional break / continue, awaits and
+    # sites (2..4 body items; bodies of 6 and more statement nodes that the size-bounded enumeration does not reach)
+    yield from coro.loop_first_programs(4 if not run.thorough else 5)
     # the same programs with every `if` written as a `match` statement (all sizes <=3, thorough <=4)
     for size in ((1, 2, 3, 4) if run.thorough else (1, 2, 3)):
         for p in coro.programs(size, calls=(0, 1)):
